@@ -1,0 +1,46 @@
+//go:build verif
+
+// Contracts for govc (see /verif/DESIGN.md). Comment-only; compiled only with -tags verif.
+
+package run
+
+//@ property C16 C17
+
+// every metric key is a schema field (the loader creates their locators with MustCreateFieldLocators)
+//@ func checkMetricKeys(conf Config, schema base.LogSchema, orchestrationKeys []string) error
+//@   modifies nothing
+//@   ensures[metric-keys-validated] result == nil ==> len(conf.MetricKeys) > 0 && forall i int :: 0 <= i && i < len(conf.MetricKeys) ==> base.hasf(schema, key(conf.MetricKeys[i]))
+
+// the decoded configuration is an ARBITRARY value of its type (absent sections are nil interfaces, empty lists): the
+// loader must report every such case as an error value. No precondition on the file.
+//@ func ParseConfigFile(filepath string) (Config, base.LogSchema, ConfigStats, error)
+//@   modifies everything
+//@   ensures[accepted-config-has-its-sections] result.3 == nil ==> result.0.Orchestration.Value != nil && len(result.0.MetricKeys) > 0
+//@        && (forall i int :: 0 <= i && i < len(result.0.MetricKeys) ==> base.hasf(result.1, key(result.0.MetricKeys[i])))
+//@        && bsupport.tcsok(result.0.Transformations, result.1) && len(result.0.OutputBuffersPairs) >= 1
+
+// trusted (yaml.v3 + bconfig.ConfigHolder.UnmarshalYAML): decoding respects the Go types; a holder that appears as a LIST
+// ITEM has been through UnmarshalYAML, which sets Value or fails (null items are skipped by the decoder); a holder that is
+// a plain struct member (orchestration, a pair's buffer/output) stays nil when its key is absent.
+//@ extern func util.UnmarshalYamlFile(path string, out any) error
+//@   modifies everything
+//@   ensures typeis(out, *Config) ==> (forall i int :: 0 <= i && i < len(as(out, *Config).Inputs) ==> as(out, *Config).Inputs[i].Value != nil)
+//@        && (forall i int :: 0 <= i && i < len(as(out, *Config).Transformations) ==> as(out, *Config).Transformations[i].Value != nil)
+
+// ---- configuration statistics (field usage tracking through the schema's OnLocated hook) ---------------------------------------
+//@ pure func trackerok(t *ConfigStatsBuilder) bool := t != nil && t.schema != nil && len(t.fieldsFixed) == len(t.schema.fieldNames) && len(t.fieldsInUse) == len(t.schema.fieldNames)
+//@ func NewConfigStatsBuilder(schema *base.LogSchema) *ConfigStatsBuilder
+//@   requires schema != nil
+//@   modifies nothing
+//@   ensures  trackerok(result) && result.schema == schema && isfresh(result)
+//@ func (tracker *ConfigStatsBuilder) BeginTrackingFixedFields()
+//@   requires trackerok(tracker)
+//@   modifies tracker.schema.OnLocated
+//@ func (tracker *ConfigStatsBuilder) BeginTrackingFields()
+//@   requires trackerok(tracker)
+//@   modifies tracker.schema.OnLocated
+//@ func (tracker *ConfigStatsBuilder) Finish(confStats *ConfigStats)
+//@   requires trackerok(tracker) && confStats != nil
+//@   modifies tracker.schema.OnLocated, confStats.FixedFields, confStats.UnusedFields
+//@   loop 1: invariant -1 <= rangeindex && rangeindex < len(tracker.fieldsFixed) && fieldNames === tracker.schema.fieldNames && trackerok(tracker)
+//@   loop 2: invariant -1 <= rangeindex#2 && rangeindex#2 < len(tracker.fieldsInUse) && fieldNames === tracker.schema.fieldNames && trackerok(tracker)
